@@ -555,11 +555,169 @@ pub fn case_text(case: &Value) -> String {
 /// Decode fuzzer bytes into a value of `strategy`: proptest's pass-through RNG hands the bytes to
 /// the strategy as its random stream, so every proptest generator is also a structure-aware
 /// libFuzzer decoder.
+///
+/// Two things make that work. (1) Every fork of the pass-through RNG halves the window of bytes the
+/// parent may still read, and proptest's unions (prop_oneof!, option::of, prop_recursive) fork once
+/// per alternative they keep in reserve for shrinking; after a handful of unions the window is
+/// empty. The generators that are decoded here are therefore built from `oneof!` / `recursive`
+/// below, which do not fork while `decoding()` is on. (2) An exhausted pass-through RNG yields zeros
+/// for ever, on which rand's rejection sampling never terminates; a fixed pseudo-random tail behind
+/// the data, and a budget of union picks per case, keep the stream alive.
 pub fn from_bytes<S: Strategy>(strategy: &S, data: &[u8]) -> Option<S::Value> {
     if data.is_empty() {
         return None;
     }
-    let rng = TestRng::from_seed(RngAlgorithm::PassThrough, data);
+    static TAIL: std::sync::OnceLock<Vec<u8>> = std::sync::OnceLock::new();
+    let tail = TAIL.get_or_init(|| {
+        let mut t = Vec::with_capacity(TAIL_BYTES);
+        let mut x = 0x5DEECE66D_u64;
+        while t.len() < TAIL_BYTES {
+            x = x.wrapping_mul(0x9E3779B97F4A7C15).wrapping_add(0xD1B54A32D192ED03);
+            let mut z = x;
+            z = (z ^ (z >> 30)).wrapping_mul(0xBF58476D1CE4E5B9);
+            z ^= z >> 27;
+            t.extend_from_slice(&z.to_le_bytes());
+        }
+        t
+    });
+    let mut buf = Vec::with_capacity(data.len() + tail.len());
+    buf.extend_from_slice(data);
+    buf.extend_from_slice(tail);
+    let rng = TestRng::from_seed(RngAlgorithm::PassThrough, &buf);
     let mut runner = TestRunner::new_with_rng(Config { failure_persistence: None, ..Config::default() }, rng);
-    strategy.new_tree(&mut runner).ok().map(|t| t.current())
+    with_decoding(|| strategy.new_tree(&mut runner).ok().map(|t| t.current()))
+}
+
+/// Length of the pseudo-random tail behind the fuzzer's bytes, and the number of union picks after
+/// which a decoded union always takes its first (simplest) arm: the two together keep a decoded
+/// case from ever reaching the end of the tail (a pick's own leaves read at most ~1 KiB).
+const TAIL_BYTES: usize = 1 << 19;
+const PICK_BUDGET: u32 = 400;
+
+thread_local! {
+    static DECODING: std::cell::Cell<bool> = const { std::cell::Cell::new(false) };
+    static PICKS: std::cell::Cell<u32> = const { std::cell::Cell::new(0) };
+}
+
+pub fn with_decoding<R>(f: impl FnOnce() -> R) -> R {
+    PICKS.with(|p| p.set(0));
+    DECODING.with(|d| d.set(true));
+    let r = f();
+    DECODING.with(|d| d.set(false));
+    r
+}
+
+pub fn decoding() -> bool {
+    DECODING.with(|d| d.get())
+}
+
+type BoxTree<T> = Box<dyn ValueTree<Value = T>>;
+
+/// Weighted union. Under the seeded RNGs of the harness tiers it is proptest's own `Union` (which
+/// can shrink towards earlier alternatives); while decoding fuzzer bytes it picks one alternative
+/// without forking the RNG.
+pub struct OneOf<T: std::fmt::Debug + 'static> {
+    arms: Vec<(u32, proptest::strategy::BoxedStrategy<T>)>,
+    union: proptest::strategy::Union<proptest::strategy::BoxedStrategy<T>>,
+}
+
+impl<T: std::fmt::Debug + 'static> OneOf<T> {
+    pub fn new(arms: Vec<(u32, proptest::strategy::BoxedStrategy<T>)>) -> Self {
+        let union = proptest::strategy::Union::new_weighted(arms.clone());
+        OneOf { arms, union }
+    }
+}
+
+impl<T: std::fmt::Debug + 'static> std::fmt::Debug for OneOf<T> {
+    fn fmt(&self, f: &mut std::fmt::Formatter<'_>) -> std::fmt::Result {
+        write!(f, "OneOf({} arms)", self.arms.len())
+    }
+}
+
+impl<T: std::fmt::Debug + 'static> Strategy for OneOf<T> {
+    type Tree = BoxTree<T>;
+    type Value = T;
+    fn new_tree(&self, runner: &mut TestRunner) -> proptest::strategy::NewTree<Self> {
+        if !decoding() {
+            return Ok(Box::new(self.union.new_tree(runner)?));
+        }
+        use proptest::prelude::RngCore;
+        let total: u64 = self.arms.iter().map(|(w, _)| *w as u64).sum();
+        // one byte per choice keeps the fuzzer's mutations local
+        let mut b = [0u8; 2];
+        runner.rng().fill_bytes(&mut b);
+        let mut pick = (u16::from_le_bytes(b) as u64 * total) >> 16;
+        let used = PICKS.with(|p| {
+            p.set(p.get() + 1);
+            p.get()
+        });
+        if used > PICK_BUDGET {
+            return self.arms[0].1.new_tree(runner);
+        }
+        for (w, s) in &self.arms {
+            if pick < *w as u64 {
+                return s.new_tree(runner);
+            }
+            pick -= *w as u64;
+        }
+        self.arms[self.arms.len() - 1].1.new_tree(runner)
+    }
+}
+
+/// One strategy for the harness tiers, another (fork-free) while decoding fuzzer bytes.
+pub struct Switch<T: std::fmt::Debug + 'static> {
+    pub normal: proptest::strategy::BoxedStrategy<T>,
+    pub decode: proptest::strategy::BoxedStrategy<T>,
+}
+
+impl<T: std::fmt::Debug + 'static> std::fmt::Debug for Switch<T> {
+    fn fmt(&self, f: &mut std::fmt::Formatter<'_>) -> std::fmt::Result {
+        write!(f, "Switch")
+    }
+}
+
+impl<T: std::fmt::Debug + 'static> Strategy for Switch<T> {
+    type Tree = BoxTree<T>;
+    type Value = T;
+    fn new_tree(&self, runner: &mut TestRunner) -> proptest::strategy::NewTree<Self> {
+        if decoding() {
+            self.decode.new_tree(runner)
+        } else {
+            self.normal.new_tree(runner)
+        }
+    }
+}
+
+/// `prop_recursive` for the harness tiers; an explicit depth-bounded recursion built from
+/// fork-free unions while decoding.
+pub fn recursive<T, R, F>(leaf: proptest::strategy::BoxedStrategy<T>, depth: u32, desired_size: u32, expected_branch_size: u32, recurse: F) -> Switch<T>
+where
+    T: std::fmt::Debug + 'static,
+    R: Strategy<Value = T> + 'static,
+    F: Fn(proptest::strategy::BoxedStrategy<T>) -> R + 'static + Clone,
+{
+    let normal = leaf.clone().prop_recursive(depth, desired_size, expected_branch_size, recurse.clone()).boxed();
+    let mut s = leaf.clone();
+    for _ in 0..depth {
+        s = OneOf::new(vec![(1, leaf.clone()), (2, recurse(s).boxed())]).boxed();
+    }
+    Switch { normal, decode: s }
+}
+
+/// `any::<f64>()` (which is a union of float classes, and forks) for the harness tiers; all bit
+/// patterns while decoding.
+pub fn any_f64() -> Switch<f64> {
+    use proptest::prelude::any;
+    Switch { normal: any::<f64>().boxed(), decode: any::<u64>().prop_map(f64::from_bits).boxed() }
+}
+
+/// Drop-in for `prop_oneof!` (same syntax) producing a [`OneOf`].
+#[macro_export]
+macro_rules! oneof {
+    ($($w:expr => $s:expr),+ $(,)?) => {
+        $crate::engine::OneOf::new(vec![$(($w as u32, proptest::strategy::Strategy::boxed($s))),+])
+    };
+    ($($s:expr),+ $(,)?) => {
+        $crate::engine::OneOf::new(vec![$((1u32, proptest::strategy::Strategy::boxed($s))),+])
+    };
 }
